@@ -25,6 +25,8 @@ func init() {
 		Rule{ID: "R20d", Doc: "a transport neither keeps nor modifies the caller's query (shared with C20)", Floor: 5, AllVariants: true, Run: r20d},
 		Rule{ID: "R02d", Doc: "the TC bit is decoded from its RFC 1035 position (the fallback test reads it; shared with C02)", Floor: 10, AllVariants: true, Run: r02d},
 		Rule{ID: "R02g", Doc: "the decoder does not reject a well-formed (e.g. header-only, TC=1) reply: short-buffer guards are exact (shared with C02)", Floor: 8, Run: r02g},
+		Rule{ID: "R16c", Doc: "an exchange never returns (nil, nil): joinErr lists are non-empty at every error return", Floor: 4, AllVariants: true, Run: r16c},
+		Rule{ID: "R03f", Doc: "transport result contract (shared with C03)", Floor: 12, AllVariants: true, Run: r03f},
 	)
 	reg("C05", "Structural necessary conditions of reply demultiplexing on pipelined connections, decided for all paths: "+
 		"(R05a) wire IDs: nextQid is written only by addQueueC, only as nextQid+1, under the connection mutex, and the uint16 conversion is dominated by a guard proving nextQid <= 65535 (no wrap => IDs pairwise distinct for the connection's life); "+
@@ -922,10 +924,22 @@ func r05g(c *core.Ctx) {
 		z := core.NewZEnv(fn)
 		x, y := z.Of(cm.XV), z.Of(cm.YV)
 		truth := !cm.Neg
+		var l core.Lin
 		if truth == want {
-			return y.Sub(x).AddC(-1), true // x < y
+			l = y.Sub(x).AddC(-1) // x < y
+		} else {
+			l = x.Sub(y) // !(x < y)
 		}
-		return x.Sub(y), true // !(x < y)
+		// name the receiver's fields independently of what each method calls its receiver
+		recv := fn.Params[0].Name() + "."
+		out := core.LinConst(l.C)
+		for s, k := range l.T {
+			if strings.HasPrefix(s, recv) {
+				s = "$." + strings.TrimPrefix(s, recv)
+			}
+			out = out.Add(core.Lin{T: map[string]int64{s: k}})
+		}
+		return out, true
 	}
 	// G: the condition under which addQueueC returns errPipelineConnEoL
 	var g core.Lin
